@@ -141,8 +141,10 @@ class ChainResolver:
                 continue
             if isinstance(n, ast.If):
                 t = norm(n.test)
+                conj = [norm(v) for v in n.test.values] if isinstance(n.test, ast.BoolOp) and isinstance(n.test.op, ast.And) else [t]
                 for var in list(env):
-                    cond = "none" if t == f"{var} is None" else "falsy" if t == f"not {var}" else None
+                    # `if x is None [and <the next source exists>]: x = NEXT`
+                    cond = "none" if f"{var} is None" in conj else "falsy" if f"not {var}" in conj else None
                     if cond and len(n.body) == 1 and isinstance(n.body[0], ast.Assign) and norm(n.body[0].targets[0]) == var and not n.orelse:
                         sub = self.expr(n.body[0].value, fi, env, depth)
                         env[var] = env[var] + [(cond, sub[0][1])] + sub[1:]
